@@ -51,7 +51,7 @@ template <class F> void for_seeds(vh::Ctx& ctx, const char* fmt, F f)
     for (Seed const& s : io_seeds())
     {
         if (std::string(s.format) != fmt) continue;
-        if (only_small && !(s.w <= 5 && s.h <= 3)) continue;
+        if (only_small && !((s.w <= 5 && s.h <= 3) || s.w >= 17)) continue;      // the smallest member of every variant + the wide-row seeds
         if (!ctx.take()) continue;
         f(s);
         if (ctx.timed_out()) return;
